@@ -448,6 +448,13 @@ func DecodeColumn(r *R, t *Type, rows int) ([]Val, error) {
 		if err != nil {
 			return nil, err
 		}
+		if t.Base == "Bool" {
+			for k, x := range b {
+				if x > 1 {
+					return nil, fmt.Errorf("ref: byte %#x is not a Bool (row %d)", x, k)
+				}
+			}
+		}
 		for i := 0; i < rows; i++ {
 			out = append(out, Leaf(append([]byte(nil), b[i*wd:(i+1)*wd]...)))
 		}
